@@ -1,0 +1,65 @@
+//go:build verif && !(js && wasm)
+// +build verif
+// +build !js !wasm
+
+package tcell
+
+import (
+	"bytes"
+
+	"github.com/gdamore/tcell/v2/terminfo"
+)
+
+// VerifParser gives the verification harness (build tag verif) synchronous
+// access to the terminfo screen's input decoder: the same key table and the
+// same collectEventsFromInput that the main loop uses, on a persistent buffer,
+// without a tty, goroutines or timers.
+type VerifParser struct {
+	t   *tScreen
+	buf bytes.Buffer
+}
+
+// NewVerifParser builds the decoder of a terminfo screen for the given entry
+// (which it edits, like NewTerminfoScreenFromTtyTerminfo does), character set
+// and screen size.
+func NewVerifParser(ti *terminfo.Terminfo, charset string, w, h int) (*VerifParser, error) {
+	t := &tScreen{ti: ti}
+	t.keyexist = make(map[Key]bool)
+	t.keycodes = make(map[string]*tKeyCode)
+	if len(ti.Mouse) > 0 {
+		t.mouse = []byte(ti.Mouse)
+	}
+	t.prepareKeys()
+	t.charset = charset
+	enc := GetEncoding(charset)
+	if enc == nil {
+		return nil, ErrNoCharset
+	}
+	t.encoder = enc.NewEncoder()
+	t.decoder = enc.NewDecoder()
+	t.cells.Resize(w, h)
+	t.w, t.h = w, h
+	return &VerifParser{t: t}, nil
+}
+
+// Feed appends a chunk to the input buffer and decodes what can be decoded;
+// expire tells the decoder that the escape timeout has passed.
+func (p *VerifParser) Feed(chunk []byte, expire bool) []Event {
+	p.buf.Write(chunk)
+	return p.t.collectEventsFromInput(&p.buf, expire)
+}
+
+// Buffered returns the number of bytes still waiting in the input buffer.
+func (p *VerifParser) Buffered() int { return p.buf.Len() }
+
+// KeyTable returns a copy of the key table: sequence -> {key, modifiers}.
+func (p *VerifParser) KeyTable() map[string][2]int {
+	m := make(map[string][2]int, len(p.t.keycodes))
+	for k, v := range p.t.keycodes {
+		m[k] = [2]int{int(v.key), int(v.mod)}
+	}
+	return m
+}
+
+// HasKey reports what Screen.HasKey would.
+func (p *VerifParser) HasKey(k Key) bool { return p.t.HasKey(k) }
